@@ -92,7 +92,9 @@ fn run_c06_case_inner(p: &Program, cfg: &Config, max_iters_for_injection: usize,
             // the same failure with the unwinding thread really dropping what it owns (loom's
             // own reports are functions of the execution): same verdict, no abort
             set_real_drops(true);
+            set_join_on_unwind(false);
             let (again, _) = trace_run(p, cfg);
+            set_join_on_unwind(true);
             set_real_drops(false);
             let same = matches!(&again.status, LoomStatus::Failed { class: c2, .. } if crate::cases::same_class(c2, class)) && again.iterations == dry.iterations;
             if !same {
@@ -264,7 +266,10 @@ fn run_c06_case_inner(p: &Program, cfg: &Config, max_iters_for_injection: usize,
                 c2.max_branches = b;
                 set_panic_fault(Some(PanicFault { tid, pc, hit: 1, marker }));
                 set_real_drops(true);
+                // (two independent failures: no blocking destructor, see `set_join_on_unwind`)
+                set_join_on_unwind(false);
                 let (run, _) = trace_run(p, &c2);
+                set_join_on_unwind(true);
                 set_real_drops(false);
                 set_panic_fault(None);
                 two_faults += 1;
